@@ -2,7 +2,8 @@
 R1 every state-independent feature: get(i) == get(None)[:, [i]] (column algebra); R2 both branches of compute_hedge feed
 the model the same per-step input; R3 the prev-hedge chain: hook registration, buffer name agreement, zero reset
 of shape (N,1,H) before the loop, model invoked through self(...), state-dependence selects the branch.
-Added after the seeded-defect rounds: R2 also: declared feature order in the step-by-step branch (probed with prev_hedge first) and the same last column in both branches; R3c-e on every path."""
+Added after the seeded-defect rounds: R2 also: declared feature order in the step-by-step branch (probed with prev_hedge first) and the same last column in both branches; R3c-e on every path.
+Third round: R1p both branches compute in the dtype of the data (nothing computed in the default dtype and converted afterwards); R1h nothing computed from an earlier simulation survives a new one (call histories); R3a the constructor keeps model, criterion and inputs in order."""
 import sympy as sp
 
 from .. import entrypoints as E
